@@ -346,24 +346,161 @@ Definition is_new (cls : string) (p : prov) : bool :=
   match p with PNew c _ => String.eqb c cls | _ => false end.
 Definition is_self (attr : string) (p : prov) : bool :=
   match p with PSelf a => String.eqb a attr | _ => false end.
-Definition arg (n : nat) (p : prov) : prov :=
-  match p with PNew _ args => nth n args (POther "missing") | _ => POther "missing" end.
+Fixpoint lookup (n : string) (l : list (string * prov)) : prov :=
+  match l with
+  | [] => POther "missing"
+  | (m, q) :: r => if String.eqb m n then q else lookup n r
+  end.
+Definition arg (n : string) (p : prov) : prov :=
+  match p with PNew _ args => lookup n args | _ => POther "missing" end.
+(* self.config.<section>.<name> *)
+Definition is_cfg (section name : string) (p : prov) : bool :=
+  match p with
+  | PField (PField (PSelf c) s) n =>
+      String.eqb c "config" && String.eqb s section && String.eqb n name
+  | _ => false
+  end.
+Definition mem (x : string) (l : list string) : bool := existsb (String.eqb x) l.
+
+(** what a solver object may be built from: the manager's CURRENT model / thermodynamics /
+    hydrodynamics / config / phase info / collision directory, the arguments of the call,
+    constants, and arithmetic on those.  Anything stored elsewhere (another attribute of self,
+    a subscripted container, a global, an unknown function) is refused. *)
+Definition live_attrs : list string :=
+  ["thermodynamics"; "hydrodynamics"; "config"; "model"; "phasesAtTn"; "collisionDirectory"]%string.
+Definition pure_funs : list string := ["<op>"; "<tuple>"; "max"; "min"; "abs"; "float"; "int"]%string.
+
+Fixpoint leaves_ok (p : prov) : bool :=
+  match p with
+  | PNew _ args =>
+      (fix go (l : list (string * prov)) : bool :=
+         match l with [] => true | (_, q) :: r => leaves_ok q && go r end) args
+  | PCall f args =>
+      mem f pure_funs &&
+      (fix go (l : list prov) : bool :=
+         match l with [] => true | q :: r => leaves_ok q && go r end) args
+  | PSelf a => mem a live_attrs
+  | PParam _ => true
+  | PField q _ => leaves_ok q
+  | PStored _ => false
+  | PPhi alts =>
+      (fix go (l : list prov) : bool :=
+         match l with [] => true | q :: r => leaves_ok q && go r end) alts
+  | POther w => String.eqb w "const"
+  end.
 
 Definition fresh_solver (p : prov) : bool :=
   is_new "WallSolver" p &&
-  let eom := arg 0 p in let grid := arg 1 p in let bs := arg 2 p in
+  let eom := arg "#0" p in let grid := arg "#1" p in let bs := arg "#2" p in
   is_new "EOM" eom && is_new "Grid3Scales" grid && is_new "BoltzmannSolver" bs &&
-  is_new "BoltzmannSolver" (arg 0 eom) &&
-  is_self "thermodynamics" (arg 1 eom) && is_self "hydrodynamics" (arg 2 eom) &&
-  is_new "Grid3Scales" (arg 3 eom) && is_new "Grid3Scales" (arg 0 bs).
+  is_new "BoltzmannSolver" (arg "boltzmannSolver" eom) &&
+  is_self "thermodynamics" (arg "thermodynamics" eom) &&
+  is_self "hydrodynamics" (arg "hydrodynamics" eom) &&
+  is_new "Grid3Scales" (arg "grid" eom) && is_new "Grid3Scales" (arg "#0" bs) &&
+  (* the tolerances and bounds of the EOM are read from the live config in this call *)
+  is_cfg "configEOM" "errTol" (arg "errTol" eom) &&
+  is_cfg "configEOM" "maxIterations" (arg "maxIterations" eom) &&
+  is_cfg "configEOM" "pressRelErrTol" (arg "pressRelErrTol" eom) &&
+  is_cfg "configEOM" "conserveEnergyMomentum" (arg "forceEnergyConservation" eom) &&
+  is_cfg "configEOM" "wallThicknessBounds" (arg "wallThicknessBounds" eom) &&
+  is_cfg "configEOM" "wallOffsetBounds" (arg "wallOffsetBounds" eom) &&
+  is_cfg "configGrid" "spatialGridSize" (arg "#0" grid) &&
+  is_cfg "configGrid" "momentumGridSize" (arg "#1" grid) &&
+  leaves_ok p.
+
+(* attributes that must not be overwritten on the freshly built objects *)
+Definition protected_attrs : list string :=
+  ["errTol"; "maxIterations"; "pressRelErrTol"; "thermo"; "hydrodynamics"; "grid";
+   "boltzmannSolver"; "forceEnergyConservation"; "wallThicknessBounds"; "wallOffsetBounds";
+   "eom"; "<item>"]%string.
 
 Theorem fresh_solver_per_call :
   gen_setupWallSolver_returns <> [] /\
   forallb fresh_solver gen_setupWallSolver_returns = true /\
   gen_setupWallSolver_stores_on_self = [] /\
+  forallb (fun sv => negb (mem (fst sv) protected_attrs) && leaves_ok (snd sv))
+          gen_setupWallSolver_local_stores = true /\
   gen_solveWall_uses_fresh_setup = true /\ gen_solveWallDetonation_uses_fresh_setup = true.
 Proof. split; [discriminate|]. repeat split; vm_compute; reflexivity. Qed.
 Print Assumptions fresh_solver_per_call.
+
+(** (c) the settings handed to EOM(...) reach the attributes solveWall reads: in the
+    straight-line EOM.__init__ each attribute is assigned from the constructor parameter of
+    that role, and no other method of EOM stores to them *)
+Definition wired (attr param : string) : bool :=
+  existsb (fun w => String.eqb (fst w) attr && String.eqb (snd w) param) gen_eom_init_wiring.
+Theorem eom_settings_wired :
+  wired "errTol" "errTol" = true /\ wired "maxIterations" "maxIterations" = true /\
+  wired "pressRelErrTol" "pressRelErrTol" = true /\ wired "thermo" "thermodynamics" = true /\
+  wired "hydrodynamics" "hydrodynamics" = true /\ wired "grid" "grid" = true /\
+  wired "boltzmannSolver" "boltzmannSolver" = true /\
+  wired "forceEnergyConservation" "forceEnergyConservation" = true /\
+  wired "wallThicknessBounds" "wallThicknessBounds" = true /\
+  wired "wallOffsetBounds" "wallOffsetBounds" = true /\
+  (* one assignment each *)
+  List.length gen_eom_init_wiring = List.length (nodup string_dec (map fst gen_eom_init_wiring)) /\
+  gen_eom_setting_stores_elsewhere = [].
+Proof. repeat split; vm_compute; reflexivity. Qed.
+Print Assumptions eom_settings_wired.
+
+(** ** 8. solveWall has no side channel: the only attributes it stores directly are
+       results.hasOutOfEquilibrium and self.pressAbsErrTol (everything else goes through the
+       setters covered by [results_defuse]; any other expression statement makes the extractor
+       fail), and each of its nine exits carries its own kind of message *)
+Definition count_msg (k : msgKind) : nat :=
+  List.length (filter (msg_eqb k) gen_message_kinds).
+Theorem solveWall_no_side_channel :
+  gen_solveWall_attribute_stores = ["results.hasOutOfEquilibrium"; "self.pressAbsErrTol"]%string /\
+  forallb (fun k => Nat.eqb (count_msg k) 1)
+          [MsgRunaway; MsgPositiveAtZero; MsgTemperatureProfile; MsgTminusRange; MsgTplusRange;
+           MsgPressureNotConverged; MsgRootFinder; MsgSaturated; MsgFound] = true /\
+  List.length gen_message_kinds = 9%nat.
+Proof. repeat split; vm_compute; reflexivity. Qed.
+Print Assumptions solveWall_no_side_channel.
+
+(** ** 9. the flag successWallPressure (oracle output [eo_pressOk] of the model) is lowered on
+       every way out of wallPressure's iteration except the convergence test: the loop is
+       `while True`, the flag is raised before it, exactly one `break` does not lower the flag
+       and it sits in the branch of a `<` comparison at loop level, every other `break` lowers
+       it first (one of them guarded by maxIterations), there is no return/continue in the loop
+       (extractor fails otherwise), and nothing else in the class writes the flag *)
+Definition unflagged (b : bool * bool * bool) : bool := negb (fst (fst b)).
+Theorem wallPressure_flag_structure :
+  gen_wp_loop_kind = "while_true"%string /\ gen_wp_flag_raised_before_loop = true /\
+  List.length (filter unflagged gen_wp_breaks) = 1%nat /\
+  forallb (fun b => snd (fst b)) (filter unflagged gen_wp_breaks) = true /\
+  existsb (fun b => fst (fst b) && snd b) gen_wp_breaks = true /\
+  gen_flag_writers =
+    [("successTemperatureProfile", ["__init__=True"; "findPlasmaProfile=False"; "findPlasmaProfile=True"]);
+     ("successWallPressure", ["__init__=True"; "wallPressure=False"; "wallPressure=True"])]%string.
+Proof. repeat split; vm_compute; reflexivity. Qed.
+Print Assumptions wallPressure_flag_structure.
+
+(** ** 10. the detonation search.  [findWallVelocityDetonation] calls solveWall with both end
+       tuples supplied; on the source (symbolic run of its scan loop) the tuples are the ones
+       evaluated at the two ends handed over and the call is guarded by p(hi) >= 0 >= p(lo).
+       For such a call the model gives: no doubling, the bracket is not moved, the reported
+       velocity lies in it and is a DETONATION when the bracket lies above vJ. *)
+Theorem detonation_callsites_paired :
+  gen_deton_callsites <> [] /\ forallb (fun c => fst c && snd c) gen_deton_callsites = true.
+Proof. split; [discriminate|vm_compute; reflexivity]. Qed.
+Print Assumptions detonation_callsites_paired.
+
+Theorem detonation_call_window :
+  forall P rootfind b s0 vlo vhi g0 oMin oMax fuel o v,
+  let c := cfg b in
+  rootfind_contract rootfind -> vlo < vhi -> eo_pressure oMin <= 0 ->
+  solveWall P rootfind c s0 vlo vhi g0 (Some oMin) (Some oMax) fuel = RDone o ->
+  r_success (o_res o) = true -> r_velocity (o_res o) = Some v ->
+  o_doublings o = 0%nat /\ o_vmin o = vlo /\ vlo <= v /\ v <= vhi /\
+  (c_vJ b < vlo -> r_type (o_res o) = Detonation) /\
+  (vhi <= c_vJ b -> r_type (o_res o) = Deflagration).
+Proof.
+  intros P rootfind b s0 vlo vhi g0 oMin oMax fuel o v c HRF Hlt Hp H Hs Hv.
+  exact (SolveWall.given_bracket_window P rootfind c s0 vlo vhi g0 oMin oMax fuel o v
+           HRF (endTol_pos b) Hlt Hp H Hs Hv).
+Qed.
+Print Assumptions detonation_call_window.
 
 (** the sign change lies within the configured tolerance on either side of the velocity *)
 Corollary sign_change_within_tolerance :
@@ -400,6 +537,18 @@ Example success_reachable :
               r_success (o_res o) = true /\ r_velocity (o_res o) = Some v /\
               r_type (o_res o) = Deflagration /\ Qabs (v - (2 # 5)) < 1 # 10.
 Proof. do 2 eexists. split; [vm_compute; reflexivity|]. vm_compute. repeat split. Qed.
+
+(** ... and through the deflagration search, whose window hypotheses are satisfiable *)
+Example success_reachable_findDeflag :
+  0 < (1 # 100) /\ (1 # 100) < Qmin (c_vJ base1) (13 # 20) /\
+  exists o v, findDeflag demo_P bisect_rf (cfg base1) (mkState 0 false false) (1 # 100) (13 # 20)
+                         (5 # 64) 1 10 = RDone o /\
+              r_success (o_res o) = true /\ r_velocity (o_res o) = Some v /\
+              (1 # 100) <= v /\ v <= (13 # 20).
+Proof.
+  split; [reflexivity|]. split; [reflexivity|].
+  do 2 eexists. split; [vm_compute; reflexivity|]. vm_compute. repeat split; discriminate.
+Qed.
 
 (** the same with a recorded root-finder outcome, as in the correspondence cases *)
 Definition demo_rf : (Q -> Q) -> Q -> Q -> Q -> rfOut :=
